@@ -42,6 +42,9 @@ type Finding struct {
 		Class     string   `json:"class,omitempty"`
 		Family    string   `json:"family,omitempty"`
 		CaseRegex string   `json:"case_regex,omitempty"`
+		// ClassRegex narrows an entry to the failed clauses it documents (a predicate on the input
+		// alone would otherwise also swallow other kinds of failure on the same inputs)
+		ClassRegex string `json:"class_regex,omitempty"`
 	} `json:"match"`
 }
 
@@ -73,6 +76,12 @@ func (f *Finding) matches(p *Property, v *Violation) bool {
 	}
 	if m.Family != "" && m.Family != v.Family {
 		return false
+	}
+	if m.ClassRegex != "" {
+		re, err := regexp.Compile(m.ClassRegex)
+		if err != nil || !re.MatchString(v.Class) {
+			return false
+		}
 	}
 	if m.Predicate != "" {
 		fn := p.KnownPredicates[m.Predicate]
@@ -327,22 +336,43 @@ func RunCheck(p *Property, tier string) int {
 	_ = sampleReplay
 
 	// evidence
+	knownByClass := map[string]map[string]int64{}
+	for k, n := range total.Counters {
+		var fi int
+		var cls string
+		if strings.HasPrefix(k, "known_finding_") {
+			rest := strings.TrimPrefix(k, "known_finding_")
+			if j := strings.Index(rest, "_class:"); j > 0 {
+				fmt.Sscan(rest[:j], &fi)
+				cls = rest[j+len("_class:"):]
+				if fi < len(findings) {
+					id := findings[fi].ID
+					if knownByClass[id] == nil {
+						knownByClass[id] = map[string]int64{}
+					}
+					knownByClass[id][cls] += n
+				}
+				delete(total.Counters, k)
+			}
+		}
+	}
 	cov := map[string]any{
-		"evaluations":         total.Evaluations,
-		"distinct_nontrivial": len(total.keyset),
-		"rule":                p.Rule,
-		"samples":             total.Samples,
-		"exhaustive":          total.Exhaustive,
-		"outcome_classes":     total.Outcomes,
-		"observed_maxima":     total.Maxima,
-		"counters":            total.Counters,
-		"violations_observed": total.NViolations,
-		"violations_unlisted": len(unlisted),
-		"known_findings_hit":  len(knownHit),
-		"shards":              nsh,
-		"deadline_s":          budget,
-		"notes":               total.Notes,
-		"distinct_outcomes":   len(total.Outcomes),
+		"evaluations":             total.Evaluations,
+		"distinct_nontrivial":     len(total.keyset),
+		"rule":                    p.Rule,
+		"samples":                 total.Samples,
+		"exhaustive":              total.Exhaustive,
+		"outcome_classes":         total.Outcomes,
+		"observed_maxima":         total.Maxima,
+		"counters":                total.Counters,
+		"violations_observed":     total.NViolations,
+		"violations_unlisted":     len(unlisted),
+		"known_findings_hit":      len(knownHit),
+		"known_findings_by_class": knownByClass,
+		"shards":                  nsh,
+		"deadline_s":              budget,
+		"notes":                   total.Notes,
+		"distinct_outcomes":       len(total.Outcomes),
 	}
 	if p.Level == "model_checking" {
 		cov["states"] = total.States
